@@ -49,12 +49,13 @@ package local
 //@   ensures[limit] result3 == nil && len(paths) > 0 && e.maximumEntryCount != 0 ==> old(e.lastScanEntryCount) + len(paths) <= e.maximumEntryCount
 //@   ensures[subset] result3 == nil ==> len(result0) <= len(paths)
 //@   ensures[subset] result3 == nil ==> forall k in 0..len(result0) :: exists j in k..len(paths) :: result0[k] == old(paths[j])
-//@   loop 1 modifies paths[*]
+//@   loop 1 modifies paths[*], stagedok, stagedpath, stagedbase, stagedoff, stagedlen, wcalls, accepted, closed, closeErr
+//@   loop 1 modifies opener.rootDirectory, opener.openParentNames, opener.openParentNames[*], opener.openParentDirectories, opener.openParentDirectories[*]
 //@   loop 1 invariant[subset] rangeindex < len(paths) && len(filteredPaths) <= rangeindex + 1 && base(filteredPaths) == base(paths) && off(filteredPaths) == off(paths) && cap(filteredPaths) == cap(paths)
-//@   loop 1 invariant opener != nil && (base(opener.openParentNames) == 0 || fresh(opener.openParentNames)) && (base(opener.openParentDirectories) == 0 || fresh(opener.openParentDirectories))
+//@   loop 1 invariant[opener] opener != nil && (base(opener.openParentNames) == 0 || loopfresh(opener.openParentNames)) && (base(opener.openParentDirectories) == 0 || loopfresh(opener.openParentDirectories))
 //@   loop 1 invariant[subset] forall j in rangeindex+1..len(paths) :: paths[j] == old(paths[j])
 //@   loop 1 invariant[subset] forall k in 0..len(filteredPaths) :: exists j in k..rangeindex+1 :: filteredPaths[k] == old(paths[j])
-//@   loop 2 invariant opener != nil && (base(opener.openParentNames) == 0 || fresh(opener.openParentNames)) && (base(opener.openParentDirectories) == 0 || fresh(opener.openParentDirectories))
+//@   loop 2 invariant[opener] opener != nil && (base(opener.openParentNames) == 0 || fresh(opener.openParentNames)) && (base(opener.openParentDirectories) == 0 || fresh(opener.openParentDirectories))
 //@   loop 2 invariant[subset] len(filteredPaths) <= len(paths) && base(filteredPaths) == base(paths)
 //@   loop 2 invariant[subset] forall k in 0..len(filteredPaths) :: exists j in k..len(paths) :: filteredPaths[k] == old(paths[j])
 
